@@ -175,8 +175,9 @@ def wtruth(v, world):
     name, args = u
     if any(isinstance(a, str) for a in args):
         return None
+    name = {"call:np.less": "cmp:Lt", "call:np.less_equal": "cmp:LtE", "call:np.greater": "cmp:Gt", "call:np.greater_equal": "cmp:GtE"}.get(name, name)
     if name.startswith("cmp:") and len(args) == 2 and name[4:] in ("Lt", "LtE", "Gt", "GtE"):
-        s = sign_in(args[0] - args[1], world)
+        s = sign_in(worldify(args[0] - args[1], None), world)
         if s is not None and s != 0:
             return (s < 0) if name[4:] in ("Lt", "LtE") else (s > 0)
     if name in _NEG and len(args) == 1:
@@ -216,12 +217,38 @@ def wtruth(v, world):
     return None
 
 
-def worldify(v, world):
-    """selections by a mask that is true in the world are the selected array; np.where(m, x, y) is x or y"""
-    if not plain(v) or world is None:
+def _loop_index(ix, is_object=None):
+    """the index consists of full slices and plain symbols that are not None / True / False (loop counters): the generic element along those axes"""
+    u = unfn(ix)
+    parts = u[1] if (u and u[0] == "tuple") else [ix]
+    n = 0
+    for p in parts:
+        if isinstance(p, str):
+            return False
+        up = unfn(p)
+        if sym_of(p) == "Ellipsis" or (up and up[0] == "slice" and all(sym_of(q) == "None" for q in up[1] if not isinstance(q, str))):
+            continue
+        k = sym_of(p)
+        if k is None or k in ("None", "True", "False") or k.startswith("<") or (is_object is not None and is_object(k)):
+            return False
+        n += 1
+    return n > 0
+
+
+def worldify(v, world, is_object=None):
+    """selections by a mask that is true in the world are the selected array; np.where(m, x, y) is x or y; a freshly zeroed array is 0; the element of a
+    *value* (not of an array object that is filled by stores) under a loop counter is the generic element of that value"""
+    if not plain(v):
         return v
 
     def f(name, args):
+        if name == "zeros":
+            return F.const(0)
+        if name == "idx" and len(args) == 2 and not isinstance(args[0], str) and not isinstance(args[1], str) and _loop_index(args[1], is_object) \
+                and sym_of(args[0]) is None and not (unfn(args[0]) or ("",))[0] in ("interp", "abs"):
+            return args[0]
+        if world is None:
+            return None
         if name == "sel" and len(args) == 2 and not isinstance(args[0], str) and not isinstance(args[1], str) and wtruth(args[1], world) is True:
             return args[0]
         if name == "idx" and len(args) == 2 and not isinstance(args[0], str) and not isinstance(args[1], str) and wtruth(args[1], world) is True:
@@ -289,6 +316,17 @@ def frf_hooks(world):
             if not plain(x) or not plain(y):
                 return NotImplemented
             return F.fn("interp1d", x, y)
+        if last == "interp" and d not in ("np.interp", "numpy.interp") and node.args and isinstance(node.args[0], (ast.Tuple, ast.List)) and len(node.args[0].elts) == 2 \
+                and len(node.args) + len(kw) >= 3:
+            # pyyeti.psd.interp((xp, yp), x, linear): with linear=True the same linear interpolation (zero outside xp)
+            lin = ev.ev(node.args[2] if len(node.args) > 2 else kw.get("linear")) if (len(node.args) > 2 or "linear" in kw) else None
+            xs = node.args[1] if len(node.args) > 1 else kw.get("freq")
+            if lin is not None and X.truth(lin) is True and xs is not None:
+                xp, yp = (ev.ev(e) for e in node.args[0].elts)
+                x = ev.ev(xs)
+                if plain(x) and plain(xp) and plain(yp):
+                    return _interp_value(x, xp, yp)
+            return NotImplemented
         if d in ("np.interp", "numpy.interp") and len(node.args) >= 3:
             x, xp, yp = (ev.ev(a) for a in node.args[:3])
             if plain(x) and plain(xp) and plain(yp):
@@ -307,12 +345,42 @@ def frf_hooks(world):
             v = ev.ev(node.args[0])
             if not plain(v):
                 return NotImplemented
-            v = worldify(v, world)
+            v = worldify(v, world, ev.is_array_object)
             return v if nonneg(v) else F.fn("abs", v)
         if d in ("np.outer", "numpy.outer", "np.multiply.outer") and len(node.args) == 2 and not node.keywords:
             a, b = ev.ev(node.args[0]), ev.ev(node.args[1])
             if plain(a) and plain(b):
                 return a * b
+        if last in ("column_stack", "stack", "array", "asarray", "vstack", "hstack", "row_stack") and len(node.args) >= 1 \
+                and isinstance(node.args[0], (ast.ListComp, ast.GeneratorExp)) and len(node.args[0].generators) == 1 and not node.args[0].generators[0].ifs:
+            # an array assembled from one expression per column / row: the generic element (the counter stays a symbol)
+            g = node.args[0].generators[0]
+            names = [n.id for n in ast.walk(g.target) if isinstance(n, ast.Name)]
+            saved = {n: ev.env.get(n) for n in names}
+            it = g.iter
+            di = dotted(it.func) if isinstance(it, ast.Call) else None
+            try:
+                if di == "range" and isinstance(g.target, ast.Name):
+                    ev.env[g.target.id] = F.sym(g.target.id)
+                elif di == "enumerate" and isinstance(g.target, ast.Tuple) and len(g.target.elts) == 2 and all(isinstance(e, ast.Name) for e in g.target.elts) \
+                        and len(it.args) == 1:
+                    arr = ev.ev(it.args[0])
+                    k = F.sym(g.target.elts[0].id)
+                    ev.env[g.target.elts[0].id] = k
+                    ev.env[g.target.elts[1].id] = F.fn("idx", need(arr), k) if plain(arr) else F.sym(g.target.elts[1].id)
+                elif isinstance(g.target, ast.Name):
+                    arr = ev.ev(it)
+                    ev.env[g.target.id] = F.fn("idx", need(arr), F.sym("<k:%s>" % g.target.id)) if plain(arr) else F.sym(g.target.id)
+                else:
+                    return NotImplemented
+                v = ev.ev(node.args[0].elt)
+            finally:
+                for n, o in saved.items():
+                    if o is None:
+                        ev.env.pop(n, None)
+                    else:
+                        ev.env[n] = o
+            return v if plain(v) else NotImplemented
         if d in ("np.moveaxis", "np.swapaxes", "np.rollaxis", "np.transpose", "np.ascontiguousarray", "np.atleast_2d", "np.atleast_1d", "np.asfortranarray",
                  "numpy.moveaxis", "numpy.swapaxes", "numpy.transpose") and node.args:
             return ev.ev(node.args[0])            # the same elements in another layout
@@ -402,7 +470,7 @@ class Run:
         self.decisions = decisions
 
     def w(self, v):
-        return worldify(v, self.world) if plain(v) else v
+        return worldify(v, self.world, self.S.ev.is_array_object) if plain(v) else v
 
     def ret(self):
         return self.S.ret()
@@ -485,19 +553,23 @@ class Run:
 
     def resolve_top(self, v, before=None, depth=0):
         """the value with the array objects that occur as direct terms replaced by the value of their generic element (the response array `a`,
-        not a mask or an index vector inside a subscript)"""
+        not a mask or an index vector inside a subscript); an object whose stores this rule cannot order stays the symbol it is"""
         if not plain(v) or depth > 6:
             return v
         v = self.w(v)
         for n in self.top_objects(v):
-            if not any(c[0] == n for c in self.S.ev.cells):
-                init = self.init_of(n)
-                if plain(init) and not X.depends(init, n):
-                    v = v.subs({n: self.resolve_top(init, before, depth + 1)})
+            try:
+                if not any(c[0] == n for c in self.S.ev.cells):
+                    init = self.init_of(n)
+                    ui = unfn(init) if plain(init) else None
+                    if plain(init) and not X.depends(init, n) and not (ui and ui[0] in ("zeros", "empty")) and not init.is_zero():
+                        v = v.subs({n: self.resolve_top(init, before, depth + 1)})
+                        continue
+                val, _cur = self.contents(n, before)
+            except Unsupported:
                 continue
-            val, _cur = self.contents(n, before)
             if X.depends(val, n):
-                raise Unsupported(f"`{n}` is read inside the value stored into it")
+                continue
             v = v.subs({n: self.resolve_top(val, before, depth + 1)})
         return self.w(v)
 
@@ -521,6 +593,10 @@ class Run:
 
 def frf_runs(ctx, cfg, limit=64):
     """evaluate srs_frf in the regime `cfg` = {getresp, sbq, srs_frq: 'given' | 'none', rsf: None | True | False, single, world}; list of Run"""
+    cache = ctx.__dict__.setdefault("_c03_frf_runs", {})
+    key = tuple(sorted((k, repr(v)) for k, v in cfg.items()))
+    if key in cache:
+        return cache[key]
     fn = ctx.src.func(SRS, "srs_frf")
     a = fn.args
     params = [x.arg for x in a.posonlyargs + a.args + a.kwonlyargs]
@@ -535,6 +611,7 @@ def frf_runs(ctx, cfg, limit=64):
     out = []
     for dec, S_ in explore(ctx, fn, SRS, fixed=frf_fixed(cfg, set(params)), limit=limit, env=env, hooks=(call,), sub_hooks=(sub,)):
         out.append(Run(S_, cfg, dec))
+    cache[key] = out
     return out
 
 
@@ -724,6 +801,7 @@ class Acc:
         self.ctx = ctx
         self.items = {}
         self.path = 0
+        self.aborted = set()          # paths on which something could not be evaluated: the statements not reached there are not decided
 
     def next_path(self):
         self.path += 1
@@ -736,6 +814,8 @@ class Acc:
             it["by_path"][self.path] = status
         if status != "ok" and (it["detail"] is None or status == "error"):
             it.update(where=where, detail=detail, key=key)
+        if status == "error":
+            self.aborted.add(self.path)
         it["nontrivial"] = it["nontrivial"] and nontrivial
 
     def ok(self, text, where=None, detail=None, nontrivial=True):
@@ -757,12 +837,16 @@ class Acc:
     def flush(self):
         for text, it in self.items.items():
             st = set(it["by_path"].values())
+            if any(p not in it["by_path"] for p in self.aborted):
+                st.add("partial")
             if st == {"ok"}:
                 self.ctx.ok(text, it["where"], None, nontrivial=it["nontrivial"])
             elif st == {"fail"}:
                 self.ctx.fail(text, it["where"], it["detail"], key=it["key"])
             elif "error" in st:
                 self.ctx.error(text, it["where"], it["detail"])
+            elif st <= {"ok", "partial"}:
+                self.ctx.error(text + " - not decided on the explored paths that could not be evaluated", it["where"], None)
             else:
                 self.ctx.error(text + " - not decided: fails on some of the explored paths only (their feasibility is not decided)", it["where"], it["detail"])
         self.items = {}
@@ -800,8 +884,24 @@ def _frf_factor(run, Z):
         av = F.Rat(F.Poly.atom(a))
         if F.atom_desc(a)[0] != "s" and _frf_dependent(run, av):
             out.append(av)
-        elif F.atom_desc(a)[0] == "s" and F.atom_desc(a)[1] == "frf":
+        elif F.atom_desc(a)[0] == "s" and (F.atom_desc(a)[1] == "frf" or (run.S.ev.is_array_object(F.atom_desc(a)[1]) and _frf_dependent(run, av))):
             out.append(av)
+    return out
+
+
+def _leftover(run, v, allowed=()):
+    """array objects that are still direct terms of a resolved value because their stores could not be followed, and that have an oscillator axis (or an
+    unknown shape): a mask over the oscillators the rule did not understand may be involved, so nothing is decided about the value.  An array without
+    an oscillator axis (the FRF placed on the grid) cannot be subject to such a mask."""
+    out = []
+    nosc = shape_canon(X.rows_of(F.sym("srs_frq")))
+    for n in run.top_objects(v):
+        init = run.init_of(n)
+        u = unfn(init) if plain(init) else None
+        sh = unfn(u[1][0]) if (u and u[0] in ("zeros", "empty") and not isinstance(u[1][0], str)) else None
+        dims = [z for z in sh[1] if not isinstance(z, str)] if (sh and sh[0] == "tuple") else None
+        if dims is None or any(shape_canon(z).equals(nosc) for z in dims):
+            out.append(n)
     return out
 
 
@@ -825,7 +925,10 @@ def _expansion(ctx, tag, run, fs, where, grid_expected=None):
         if name is not None and not inner:
             return ("object", name, loops)
         if inner:
-            ctx.fail(text, where, {"FRF factor": repr(base)[:300], "interpolated": [repr(interp_of(z)[2])[:120] for z in inner]}, key="C03-R9|expansion")
+            # the interpolated values pass through further operations before they are used: a violation when these are all understood (abs, arithmetic,
+            # selections), not decided when something opaque is among them
+            _decide(ctx, False, text, where, {"FRF factor": repr(base)[:300], "interpolated": [repr(interp_of(z)[2])[:120] for z in inner]},
+                    values=[abstract(base, *[interp_of(z)[0] for z in inner])], key="C03-R9|expansion")
         else:
             _decide(ctx, False, text, where, {"FRF factor": repr(base)[:300]}, values=[base, F.fn("call:?")], key="C03-R9|expansion")
         return None
@@ -856,16 +959,17 @@ def _axis_ok(run, M, axis, grid):
     """the reduction runs over the grid axis: None when the shape of the reduced array is not known to the evaluator"""
     um = unfn(M)
     inner = um[1][0] if (um and um[0] == "abs" and not isinstance(um[1][0], str)) else M
-    for n in run.top_objects(inner):           # the array the response is assembled in (a direct term of the reduced value, not an index or a factor's argument)
-        init = run.init_of(n)
-        u = unfn(init) if plain(init) else None
-        if u and u[0] in ("empty", "zeros") and not isinstance(u[1][0], str):
-            sh = unfn(u[1][0])
-            if sh and sh[0] == "tuple" and len(sh[1]) == 2 and plain(axis) and axis.is_const() and axis.const_value().denominator == 1:
-                k = int(axis.const_value())
-                if -2 <= k < 2:
-                    return shape_canon(sh[1][k]).equals(shape_canon(X.rows_of(grid)))
-            return None
+    objs = run.top_objects(inner)
+    if len(objs) != 1:
+        return None            # the shape of the reduced value is that of one array the response is assembled in, or not known to the rule
+    init = run.init_of(objs[0])
+    u = unfn(init) if plain(init) else None
+    if u and u[0] in ("empty", "zeros") and not isinstance(u[1][0], str):
+        sh = unfn(u[1][0])
+        if sh and sh[0] == "tuple" and len(sh[1]) >= 2 and plain(axis) and axis.is_const() and axis.const_value().denominator == 1:
+            k = int(axis.const_value())
+            if -len(sh[1]) <= k < len(sh[1]) and not isinstance(sh[1][k], str):
+                return shape_canon(sh[1][k]).equals(shape_canon(X.rows_of(grid)))
     return None
 
 
@@ -893,6 +997,10 @@ def _response(ctx, tag, run, ref, where, want_resp):
         return
     if world == "rigid":
         fsl = _frf_factor(run, Zm)
+        left = _leftover(run, Zm, fsl)
+        if left:
+            ctx.error(f"{tag}: response whose peak is taken", st, f"stores into {left} under indices this rule does not model")
+            return
         ok = M2.is_zero()
         if not ok and len(fsl) == 1:
             g = _expansion_grid(run, fsl[0])
@@ -902,6 +1010,10 @@ def _response(ctx, tag, run, ref, where, want_resp):
                 None if ok else {"response": repr(Zm)[:300]}, values=[abstract(Zm, *[_expansion_grid(run, z) for z in fsl], *fsl)], key="C03-R9|rigid")
         return
     fsl = _frf_factor(run, Zm)
+    left = _leftover(run, Zm, fsl)
+    if left:
+        ctx.error(f"{tag}: response whose peak is taken", st, f"stores into {left} under indices this rule does not model")
+        return
     if len(fsl) != 1:
         _decide(ctx, False, f"{tag}: the response is the transfer function times one FRF value", st, {"response": repr(Zm)[:300], "FRF factors": [repr(z)[:120] for z in fsl]},
                 values=[abstract(Zm, *fsl)], key="C03-R9|H")
@@ -960,19 +1072,24 @@ def _response(ctx, tag, run, ref, where, want_resp):
     ok = plain(ent.get("srs_frq")) and ent["srs_frq"].equals(F.sym("srs_frq"))
     _decide(ctx, ok, f"{tag}: resp['srs_frq'] is the vector of oscillator frequencies", run.S.ret_node(), None if ok else repr(ent.get("srs_frq"))[:200], values=[ent.get("srs_frq")])
     fname = run.object_name(ent.get("frfs"))
-    if fname is None:
-        ctx.error(f"{tag}: resp['frfs'] is not an array filled in the function", run.S.ret_node(), repr(ent.get("frfs"))[:200])
+    if fname is None and not plain(ent.get("frfs")):
+        ctx.error(f"{tag}: resp['frfs']", run.S.ret_node(), repr(ent.get("frfs"))[:200])
         return
     try:
-        zv, _c = run.contents(fname)
-        Zr = run.resolve_top(zv, before=[c[3] for c in run.S.ev.cells if c[0] == fname][-1])
+        if fname is not None and any(c[0] == fname for c in run.S.ev.cells):
+            zv, _c = run.contents(fname)
+            Zr = run.resolve_top(zv, before=[c[3] for c in run.S.ev.cells if c[0] == fname][-1])
+        else:
+            Zr = run.resolve_top(ent["frfs"])
+        if _leftover(run, Zr, [fs]):
+            raise Unsupported(f"stores into {_leftover(run, Zr, [fs])} under indices this rule does not model")
     except Unsupported as e:
         ctx.error(f"{tag}: resp['frfs']", run.S.ret_node(), str(e))
         return
     ok = (Zr / fs).equals(Hc)
     _decide(ctx, ok, f"{tag}: resp['frfs'] holds the complex response H(f / fn) * |frf|(f),  H(p) = (1 + j p/Q) / (1 - p^2 + j p/Q)", run.S.ret_node(),
             None if ok else {"stored / |frf|": repr(Zr / fs)[:400]}, values=[abstract(Zr, grid, fs)], key="C03-R9|H")
-    init = run.init_of(fname)
+    init = run.init_of(fname) if fname is not None else None
     ui = unfn(init) if plain(init) else None
     sh = unfn(ui[1][0]) if (ui and ui[0] in ("zeros", "empty") and not isinstance(ui[1][0], str)) else None
     if sh and sh[0] == "tuple" and len(sh[1]) == 3:
@@ -1077,7 +1194,11 @@ def rule(ctx):
             osc = F.sym("srs_frq") if given else F.sym("frf_frq")
             mag = F.fn("abs", F.sym("frf"))
             want = F.sym("Q") * (mag if not given else F.fn("interp", osc, F.sym("frf_frq"), mag))
-            ok = canon(spec).equals(want)
+            def generic(v, run=run):
+                # one column of the FRF array (under a loop counter) stands for the array: the comparison is element by element
+                return rewrite(v, lambda name, args: args[0] if (name == "idx" and len(args) == 2 and not isinstance(args[0], str) and not isinstance(args[1], str)
+                                                               and _loop_index(args[1], run.S.ev.is_array_object)) else None)
+            ok = generic(canon(spec)).equals(want)
             _decide(acc, ok, f"{tag}: the spectrum is exactly Q * |frf| at the oscillator frequencies", st, None if ok else {"returned": repr(spec)[:300], "expected": repr(want)},
                     values=[spec], key="C03-R9|sbq")
         acc.flush()
@@ -1127,3 +1248,79 @@ def rule(ctx):
                                     continue
                         _decide(acc, not bad, text, run.S.ret_node(), bad[:3] or None, values=seen, key="C03-R9|return")
                     acc.flush()
+
+
+# ---------------------------------------------------------------------------------------------------------------- quadrature weights on a uniform grid
+def uniform_weights(S_, w, G):
+    """value of the quadrature weight w (an array filled by stores, or an expression) at the first, an interior and the last point of a *uniformly spaced*
+    grid G = f0 + h * (0 .. n-1):  {'first' | 'interior' | 'last': value};  `G[a:b]` is, element by element, f0 + h (a + t), `G[c]` is f0 + h c (n + c for
+    c < 0), np.diff(G) and np.gradient(G) are h.  Unsupported when a store or an operand is not of these forms."""
+    f0, h, n, t = F.sym("<f0>"), F.sym("<h>"), F.sym("<n>"), F.sym("<t>")
+
+    def cint(v):
+        if sym_of(v) == "None":
+            return None
+        if plain(v) and v.is_const() and v.const_value().denominator == 1:
+            return int(v.const_value())
+        raise Unsupported(f"index {v!r}")
+
+    def at(v):
+        def f(name, args):
+            if name == "idx" and len(args) == 2 and not isinstance(args[0], str) and not isinstance(args[1], str) and args[0].equals(G):
+                u = unfn(args[1])
+                if u and u[0] == "slice" and len(u[1]) == 3 and not any(isinstance(z, str) for z in u[1]):
+                    a, _b, st = (cint(z) for z in u[1])
+                    if st not in (None, 1):
+                        raise Unsupported("strided slice of the grid")
+                    a = a or 0
+                    return f0 + h * ((n + a if a < 0 else F.const(a)) + t)
+                if not (args[1].is_const() and args[1].const_value().denominator == 1):
+                    return None                      # an element under a loop counter (the oscillator's own frequency): not a neighbour difference
+                c = int(args[1].const_value())
+                return f0 + h * (n + c if c < 0 else F.const(c))
+            if name in ("idx", "sel") and len(args) == 2 and not isinstance(args[0], str) and X.sym_names(args[0]) and X.sym_names(args[0]) <= {"<h>", "<f0>", "<n>"} \
+                    and not X.fn_names(args[0]):
+                return args[0]                   # an element of a vector that is constant on the uniform grid
+            if name in ("call:np.diff", "call:np.gradient", "call:np.ediff1d", "call:numpy.diff", "call:numpy.gradient") and len(args) == 1 and not isinstance(args[0], str) \
+                    and args[0].equals(G):
+                return h
+            return None
+        return rewrite(v, f)
+
+    if not plain(w):
+        raise Unsupported(f"weight {w!r}"[:200])
+    name = sym_of(w)
+    if name is None:
+        # a quotient whose common factors were not cancelled: the weight array itself when the value equals it
+        for c in sorted(X.sym_names(w)):
+            if S_.ev.is_array_object(c) and w.equals(F.sym(c)):
+                name = c
+    if name is None or not S_.ev.is_array_object(name):
+        v = at(w)
+        return {"first": v, "interior": v, "last": v}
+    out = {}
+    for nm, ix, val, _st in S_.ev.cells:
+        if nm != name:
+            continue
+        if is_unknown(ix) or not plain(val):
+            raise Unsupported(f"store into the weight array: {ix!r}"[:200])
+        u = unfn(ix)
+        if u and u[0] == "slice" and len(u[1]) == 3 and not any(isinstance(z, str) for z in u[1]):
+            a, b, st = (cint(z) for z in u[1])
+            if st not in (None, 1) or a not in (None, 0, 1) or b not in (None, -1):
+                raise Unsupported(f"store into the weight array under {ix!r}")
+            cls = (["first"] if a in (None, 0) else []) + ["interior"] + (["last"] if b is None else [])
+            # element t of the stored value belongs to position a + t: the operands are read at their own start + t
+            v = at(val)
+        else:
+            c = cint(ix)
+            if c not in (0, -1):
+                raise Unsupported(f"store into the weight array under {ix!r}")
+            cls = ["first" if c == 0 else "last"]
+            v = at(val)
+        for k in cls:
+            out[k] = v
+    missing = [k for k in ("first", "interior", "last") if k not in out]
+    if missing:
+        raise Unsupported(f"no store into the {missing} element(s) of the weight array found")
+    return out
